@@ -21,7 +21,7 @@ RULE = ('perm: random profile, outcome under 3 random permutations of the dictio
         'identical outcomes. symmetric: profile P plus its image under a transposition (a b): a and b are both elected, both tied or both out. '
         'non-trivial = the outcome contains a tie or a refusal, or the profile has > 3 candidates; distinct by case hash')
 PARTIAL = ['order / renaming / hash-seed independence of everything except get_n_best and the additive converters is decided per explored case '
-           '(C10_schulze_order_full_statement is stated, not proved); highest averages is proved order-independent (C10_highest_averages_order), its renaming clause is per case']
+           '(C10_schulze_order_full_statement is stated, not proved); highest averages is proved order-independent and renaming-equivariant (C10_highest_averages_order / _rename)']
 TRUSTED = ['harness/c10_worker.py (subprocess evaluation under a chosen PYTHONHASHSEED)']
 SEEDS_Q = [0, 1, 2, 3, 4, 12345]
 SEEDS_T = SEEDS_Q + [5, 6, 7, 8, 9, 10, 11, 99, 2024, 4294967295]
